@@ -598,6 +598,12 @@ func MapHash(input map[string]core.Value) uint64 {
 	h.Write([]byte("{"))
 
 	for idx, key := range keys {
+		// the length goes in front of the key: a key may contain ':' and ',',
+		// and without it two different objects can produce the same bytes
+		keyLen := make([]byte, 8)
+		binary.LittleEndian.PutUint64(keyLen, uint64(len(key)))
+
+		h.Write(keyLen)
 		h.Write([]byte(key))
 		h.Write([]byte(":"))
 
